@@ -8,7 +8,7 @@ import os, sys, json, re, hashlib, time
 import vlib
 
 sys.path.insert(0, os.path.join(vlib.VERIF, 'tools'))
-import tr_c18_statics, gen_c17_scen as G, gen_c17_csrc as CS
+import tr_c18_statics, gen_c17_scen as G, gen_c17_csrc as CS, gen_c17_cgen as CG
 
 LEVEL = 'proof'
 TSAN_ENV = {'TSAN_OPTIONS': 'halt_on_error=0 report_signal_unsafe=0 exitcode=66 history_size=4'}
@@ -50,6 +50,48 @@ def so_symbols(so):
     return syms
 
 
+def corpus_scripts(chk, quick):
+    """compile-only scripts for the read-only-statics pass: (a) generated C units (tools/gen_c17_cgen.py: every expression
+    kind x operand types, conditionals over void / qualified pointers, alloca, label addresses), (b) the C files of the
+    tree's own c-tests directory -- all of them in the thorough tier, a deterministic seed-dependent sample in quick.
+    Foreign files are compiled with `c2mt` (accepted or diagnosed: both fine, the pass looks at stores to statics only)."""
+    import glob
+    H = G.hexs
+    scripts = []
+
+    def pack(units, per_ctx=12, per_script=48):
+        for i in range(0, len(units), per_script):
+            L = []
+            for j in range(i, min(i + per_script, len(units)), per_ctx):
+                L += ['init', 'c2m_init'] + ['c2mt t%d.c %s' % (k, H(units[k])) for k in range(j, min(j + per_ctx, len(units), i + per_script))]
+                L += ['c2m_finish', 'finish']
+            scripts.append(L)
+    rng = chk.rng('ro-cgen')
+    gen = [CG.c_unit(rng)[1].replace('@N@', 'g%d' % i) for i in range(60 if quick else 1500)]
+    pack(gen)
+    files = []
+    for f in sorted(glob.glob(os.path.join(vlib.REPO, 'c-tests', '*', '*.c'))):
+        try:
+            if os.path.getsize(f) < 200000:
+                files.append(f)
+        except OSError:
+            pass
+    if quick and files:
+        step = max(1, len(files) // 150)
+        files = files[chk.seed % step::step]
+    units = []
+    for f in files:
+        try:
+            txt = open(f, errors='replace').read()
+        except OSError:
+            continue
+        if '\0' not in txt:
+            units.append(txt)
+    pack(units)
+    chk.cov['ro_statics_corpus'] = dict(generated_units=len(gen), c_tests_files=len(units))
+    return scripts
+
+
 def ro_statics_pass(chk, scripts):
     """every script in one thread with the library's writable data pages made read-only: any store to a library static
     (also through a pointer the translator cannot follow) is reported.  -> {object name: (script, detail)}"""
@@ -66,6 +108,8 @@ def ro_statics_pass(chk, scripts):
         if rc not in (0, 65) and 'X STATIC-WRITE' not in out:
             raise vlib.BuildError('c18_rostatics failed (rc %d): %s' % (rc, (out + err)[-400:]))
         for l in out.split('\n'):
+            if l.startswith('R c2mt '):
+                chk.dist('ro_corpus_units', l.split()[-1])
             m = re.match(r'^X STATIC-WRITE ([0-9a-f]+) pc ([0-9a-f]+)', l)
             if not m:
                 continue
@@ -78,6 +122,24 @@ def ro_statics_pass(chk, scripts):
             found.setdefault(name, (sc, dict(object=name, so_offset=hex(off), written_by=fn,
                                              how='library linked as libmirv.so, its .data/.bss made read-only, script run by harness/c18_rostatics.c')))
     chk.log('read-only statics pass: %d scripts, %d written objects %s' % (nrun, len(found), sorted(found)))
+    # shrink the witnesses: drop script lines while the history stays legal and the object is still written
+    for name, (sc, detail) in list(found.items())[:3]:
+        def still(sub, name=name):
+            if not G.valid(['0 ' + l for l in sub]):
+                return False
+            try:
+                rc, out, err = vlib.sh([exe], input=('\n'.join(sub) + '\nend\n').encode(), timeout=120)
+            except Exception:
+                return False
+            for l in out.split('\n'):
+                m = re.match(r'^X STATIC-WRITE ([0-9a-f]+) pc', l)
+                if m:
+                    off = int(m.group(1), 16)
+                    if (next((n for a, sz, n in syms if a <= off < a + max(sz, 1)), None) or 'offset-0x%x' % off) == name:
+                        return True
+            return False
+        if len(sc) > 3 and still(sc):
+            found[name] = (vlib.shrink_list(sc, still, max_steps=80), detail)
     return found
 
 
@@ -307,6 +369,7 @@ def run(chk):
     for name, th, reps in sets:
         if name.startswith('corpus:'):
             ro_scripts += [list(t) for t in th[:1]]
+    ro_scripts += corpus_scripts(chk, quick)
     for sc in ro_scripts:
         chk.count(('ro', sc), nontrivial=True)
     chk.dist('sets', 'read-only-statics(single thread)', len(ro_scripts))
